@@ -1,100 +1,13 @@
-(* C03 - proofs: the substring test of the model against the component-wise specification,
-   the bijection under every file order, isolation of unparsable files, the refutations,
-   and soundness/completeness of the oracle's multiset comparison. *)
+(* C03 - proofs: the component test of the model against the component-wise specification
+   (extension test included), the bijection under every file order, isolation of unparsable
+   and unreadable files, the two repaired witnesses, and soundness/completeness of the
+   multiset comparison of the oracle. *)
 From Coq Require Import String Ascii.
 From Coq Require Import List Arith Lia Bool Permutation.
-Require Import TT.Proofs.DiscoverSpike.
 Require Import TT.Model.Str TT.Model.Pipeline TT.Model.C03Discover TT.Spec.C03Spec.
 Require Import TT.Proofs.StrFacts.
 Import ListNotations.
 Local Open Scope list_scope.
-
-(* ------------------------------------------------------------------ contains = occurs *)
-Lemma starts_iff p s : starts p s = true <-> exists b, s = p ++ b.
-Proof. revert s. induction p as [|a p IH]; intros s; simpl.
-  - split; eauto.
-  - destruct s as [|c s]; [split; [discriminate|intros (b & E); discriminate]|].
-    rewrite andb_true_iff, IH. split.
-    + intros (Ha & b & ->). apply Ascii.eqb_eq in Ha. subst. eauto.
-    + intros (b & E). inversion E; subst. split; eauto. apply Ascii.eqb_refl. Qed.
-
-Lemma contains_occurs p s : contains p s = true <-> occurs p s.
-Proof. induction s as [|c s IH]; simpl.
-  - rewrite orb_false_r, starts_iff. split.
-    + intros (b & E). exists [], b. exact E.
-    + intros (a & b & E). destruct a; simpl in E.
-      * eauto.
-      * discriminate.
-  - rewrite orb_true_iff, starts_iff, IH. split.
-    + intros [(b & E)|(a & b & E)].
-      * exists [], b. exact E.
-      * exists (c :: a), b. simpl. congruence.
-    + intros (a & b & E). destruct a as [|x a]; simpl in E.
-      * left. eauto.
-      * right. inversion E; subst. exists a, b. reflexivity. Qed.
-
-Lemma contains_false p s : contains p s = false <-> ~ occurs p s.
-Proof. rewrite <- contains_occurs. destruct (contains p s); split; congruence. Qed.
-
-(* ------------------------------------------------------------------ names *)
-Definition sfree (c : str) : Prop := DiscoverSpike.slashfree c.
-
-Lemma slash_free_sound s : slash_free s = true -> sfree s.
-Proof. unfold slash_free, sfree, slashfree. intros H Hin. apply negb_true_iff in H.
-  assert (existsb (Ascii.eqb C03Discover.slash) s = true) as E.
-  { apply existsb_exists. exists DiscoverSpike.slash. split; [exact Hin|apply Ascii.eqb_refl]. }
-  congruence. Qed.
-
-Lemma name_ok_sfree s : name_ok s = true -> sfree s.
-Proof. unfold name_ok. rewrite !andb_true_iff. intros (((H & _) & _) & _). apply slash_free_sound, H. Qed.
-
-Lemma target_sf : slashfree (L "target").
-Proof. intros H. cbv in H. repeat (destruct H as [H|H]; [discriminate|]). exact H. Qed.
-Lemma git_sf : slashfree (L ".git").
-Proof. intros H. cbv in H. repeat (destruct H as [H|H]; [discriminate|]). exact H. Qed.
-
-(* a directory component equal to d = d occurs in the list without its last element *)
-Lemma comp_split (d : str) (comps : list str) :
-  (exists pre post, post <> [] /\ comps = pre ++ d :: post) <-> In d (removelast comps).
-Proof. split.
-  - intros (pre & post & Hne & ->). destruct (exists_last Hne) as (post' & z & ->).
-    replace (pre ++ d :: post' ++ [z]) with ((pre ++ d :: post') ++ [z]) by (rewrite <- app_assoc; reflexivity).
-    rewrite removelast_last. apply in_or_app. right. left. reflexivity.
-  - intros Hin. destruct comps as [|c0 cs]; [destruct Hin|].
-    destruct (@exists_last _ (c0 :: cs)) as (body & z & E); [discriminate|].
-    rewrite E in *. rewrite removelast_last in Hin. apply in_split in Hin as (pre & post & ->).
-    exists pre, (post ++ [z]). split; [destruct post; discriminate|]. rewrite <- app_assoc. reflexivity. Qed.
-
-Lemma existsb_seg (s : string) (l : list str) : existsb (seg_is s) l = true <-> In (L s) l.
-Proof. rewrite existsb_exists. split.
-  - intros (x & Hin & E). unfold seg_is in E. apply str_eqb_eq in E. subst. exact Hin.
-  - intros Hin. exists (L s). split; [exact Hin|]. unfold seg_is. apply str_eqb_refl. Qed.
-
-Lemma existsb_excluded l :
-  existsb excluded_dir l = existsb (seg_is "target") l || existsb (seg_is ".git") l.
-Proof. induction l as [|x l IH]; [reflexivity|]. simpl. rewrite IH. unfold excluded_dir.
-  destruct (seg_is "target" x), (seg_is ".git" x), (existsb (seg_is "target") l), (existsb (seg_is ".git") l); reflexivity. Qed.
-
-(* ------------------------------------------------------------------ the exclusion test *)
-Lemma path_string_full root comps : path_string root comps = full_path (norm_root root) comps.
-Proof. reflexivity. Qed.
-
-Lemma kf_root_false root : kf_root root = false ->
-  ~ occurs (pat (L "target")) (norm_root root ++ [DiscoverSpike.slash]) /\
-  ~ occurs (pat (L ".git")) (norm_root root ++ [DiscoverSpike.slash]).
-Proof. unfold kf_root. intros H. apply orb_false_iff in H as [H1 H2].
-  apply contains_false in H1. apply contains_false in H2. split; assumption. Qed.
-
-Lemma contains_dir (d : string) root comps :
-  slashfree (L d) -> Forall slashfree comps ->
-  ~ occurs (pat (L d)) (norm_root root ++ [DiscoverSpike.slash]) ->
-  contains (pat (L d)) (path_string root comps) = existsb (seg_is d) (removelast comps).
-Proof. intros Hd Hsf Hroot.
-  destruct (existsb (seg_is d) (removelast comps)) eqn:E.
-  - apply contains_occurs. rewrite path_string_full. apply (accepted_spec (L d) Hd _ _ Hsf Hroot).
-    apply comp_split. apply existsb_seg. exact E.
-  - apply contains_false. intros Hocc. rewrite path_string_full in Hocc.
-    apply (accepted_spec (L d) Hd _ _ Hsf Hroot) in Hocc. apply comp_split in Hocc. apply existsb_seg in Hocc. exact (eq_true_false_abs _ Hocc E). Qed.
 
 (* ------------------------------------------------------------------ the extension test *)
 Lemma ext_rev_len acc r e : ext_rev acc r = Some e -> List.length acc <= List.length e.
@@ -136,15 +49,12 @@ Proof. unfold is_rs, rs_name, extension. rewrite <- (rev_length name).
   apply ext_rev_len in E. apply str_eqb_neq. intros ->. cbn [List.length] in E. lia. Qed.
 
 (* ------------------------------------------------------------------ accepted = spec_accept *)
-Lemma accepted_spec_accept root comps :
-  kf_root root = false -> Forall slashfree comps ->
-  accepted root comps = spec_accept comps.
-Proof. intros Hroot Hsf. apply kf_root_false in Hroot as [Ht Hg].
-  unfold accepted, spec_accept. rewrite is_rs_rs_name.
-  change (L "/target/") with (pat (L "target")). change (L "/.git/") with (pat (L ".git")).
-  rewrite (contains_dir "target" root comps target_sf Hsf Ht).
-  rewrite (contains_dir ".git" root comps git_sf Hsf Hg).
-  rewrite existsb_excluded. rewrite negb_orb, andb_assoc. reflexivity. Qed.
+Lemma excluded_same l : existsb excluded_component l = existsb excluded_dir l.
+Proof. reflexivity. Qed.
+
+(* no premise: neither the spelling of the root nor the shape of the names matters *)
+Lemma accepted_spec_accept root comps : accepted root comps = spec_accept comps.
+Proof. unfold accepted, spec_accept, below_root. rewrite is_rs_rs_name, excluded_same. reflexivity. Qed.
 
 (* ------------------------------------------------------------------ induction on trees *)
 Section NodeInd.
@@ -174,28 +84,6 @@ Lemma spec_walk l : annotated_spec l = spec_files (walk l).
 Proof. unfold annotated_spec, spec_nodes, walk, walk_nodes. induction l as [|x r IH]; [reflexivity|].
   cbn [flat_map]. rewrite spec_files_app, spec_walk_node, IH. reflexivity. Qed.
 
-Definition comps_ok (pc : list str * content) : Prop := Forall slashfree (fst pc).
-
-Lemma walk_node_ok n : forall dirs, node_ok n = true -> Forall slashfree dirs -> Forall comps_ok (walk_node dirs n).
-Proof. induction n as [name c|name ch IH] using node_ind'; intros dirs Hok Hd.
-  - cbn [walk_node]. constructor; [|constructor]. unfold comps_ok. cbn [fst].
-    apply Forall_app. split; [exact Hd|]. constructor; [|constructor]. apply name_ok_sfree. exact Hok.
-  - cbn [node_ok] in Hok. apply andb_true_iff in Hok as [Hok _]. apply andb_true_iff in Hok as [Hn Hch].
-    assert (Forall slashfree (dirs ++ [name])) as Hd'.
-    { apply Forall_app. split; [exact Hd|]. constructor; [|constructor]. apply name_ok_sfree. exact Hn. }
-    cbn [walk_node]. rewrite forallb_forall in Hch.
-    induction IH as [|x r Hx Hr IHr]; [constructor|].
-    cbn [flat_map]. apply Forall_app. split.
-    + apply Hx; [apply Hch; left; reflexivity|exact Hd'].
-    + apply IHr. intros y Hy. apply Hch. right. exact Hy. Qed.
-
-Lemma walk_ok l : layout_ok l = true -> Forall comps_ok (walk l).
-Proof. unfold layout_ok, walk, walk_nodes. intros H. apply andb_true_iff in H as [H _].
-  rewrite forallb_forall in H. induction l as [|x r IH]; [constructor|].
-  cbn [flat_map]. apply Forall_app. split.
-  - apply walk_node_ok; [apply H; left; reflexivity|constructor].
-  - apply IH. intros y Hy. apply H. right. exact Hy. Qed.
-
 (* ------------------------------------------------------------------ attribute test *)
 Lemma command_attr_same f : is_tauri_command f = annotated f.
 Proof. unfold is_tauri_command, annotated. induction (fn_attrs f) as [|p r IH]; [reflexivity|].
@@ -208,28 +96,16 @@ Proof. unfold file_cmds, top_level_annotated. induction items as [|it r IH]; [re
 (* ------------------------------------------------------------------ load *)
 Definition cmd_pair (c : cmd) : list str * fn_def := (c_file c, c_fn c).
 
-Lemma load_spec root files :
-  kf_root root = false -> Forall comps_ok files ->
-  existsb (fun pc => accepted root (fst pc) && is_notutf8 (snd pc)) files = false ->
-  exists cached, load root files = Done cached /\
-                 map cmd_pair (analyze_files cached) = spec_files files.
-Proof. intros Hroot Hok. induction Hok as [|[p c] r Hp Hr IH]; intros Hkf.
-  - exists []. split; reflexivity.
-  - cbn [existsb fst snd] in Hkf. apply orb_false_iff in Hkf as [Hk1 Hk2].
-    destruct (IH Hk2) as (cached & Hl & Hs).
-    unfold comps_ok in Hp. cbn [fst] in Hp.
-    pose proof (accepted_spec_accept root p Hroot Hp) as Hacc.
-    cbn [load]. unfold spec_files. cbn [flat_map fst snd]. fold (spec_files r).
-    destruct (accepted root p) eqn:Ea.
-    + destruct c as [items| |].
-      * rewrite Hl. exists ((p, items) :: cached). split; [reflexivity|].
-        unfold analyze_files. cbn [flat_map fst snd]. fold (analyze_files cached).
-        rewrite map_app, Hs, <- Hacc. f_equal.
-        rewrite map_map. unfold cmd_pair. cbn [c_file c_fn]. rewrite file_cmds_same. reflexivity.
-      * exists cached. split; [exact Hl|]. rewrite Hs. reflexivity.
-      * cbn in Hk1. discriminate.
-    + exists cached. split; [exact Hl|]. rewrite Hs, <- Hacc.
-      destruct c; reflexivity. Qed.
+Lemma load_spec root files : map cmd_pair (analyze_files (load root files)) = spec_files files.
+Proof. induction files as [|[p c] r IH]; [reflexivity|].
+  cbn [load]. unfold spec_files. cbn [flat_map fst snd]. fold (spec_files r).
+  rewrite <- (accepted_spec_accept root p).
+  destruct (accepted root p) eqn:Ea.
+  - destruct c as [items| |]; [|exact IH|exact IH].
+    unfold analyze_files. cbn [flat_map fst snd]. fold (analyze_files (load root r)).
+    rewrite map_app, IH. f_equal.
+    rewrite map_map. unfold cmd_pair. cbn [c_file c_fn]. rewrite file_cmds_same. reflexivity.
+  - rewrite IH. destruct c; reflexivity. Qed.
 
 (* ------------------------------------------------------------------ bijection *)
 Definition file_obs (pi : list str * list ritem) : list (str * str) :=
@@ -242,25 +118,26 @@ Proof. unfold emit, analyze_files. induction cached as [|pi r IH]; [reflexivity|
 Lemma emit_pairs cs : map wobs (emit cs) = map spec_obs (map cmd_pair cs).
 Proof. unfold emit. rewrite !map_map. reflexivity. Qed.
 
-Theorem bijection root l :
-  layout_ok l = true -> kf_root root = false -> kf_notutf8 root l = false ->
-  exists cached, cache root l = Done cached /\
-    forall files', Permutation files' cached ->
-      Permutation (map wobs (emit (analyze_files files'))) (map spec_obs (annotated_spec l)).
-Proof. intros Hok Hroot Hutf.
-  destruct (load_spec root (walk l) Hroot (walk_ok l Hok) Hutf) as (cached & Hl & Hs).
-  exists cached. split; [exact Hl|]. intros files' Hperm.
-  rewrite spec_walk, <- Hs, <- emit_pairs, !emit_flat.
+(* holds for every tree and every root; the layout_ok premise of the published theorem only
+   delimits the trees that stand for a real directory *)
+Theorem bijection_any root l files' :
+  Permutation files' (cache root l) ->
+  Permutation (map wobs (emit (analyze_files files'))) (map spec_obs (annotated_spec l)).
+Proof. intros Hperm. unfold cache in Hperm.
+  rewrite spec_walk, <- (load_spec root (walk l)), <- emit_pairs, !emit_flat.
   apply Permutation_flat_map. exact Hperm. Qed.
+
+Theorem bijection root l :
+  layout_ok l = true ->
+  forall files', Permutation files' (cache root l) ->
+    Permutation (map wobs (emit (analyze_files files'))) (map spec_obs (annotated_spec l)).
+Proof. intros _ files'. apply bijection_any. Qed.
 
 (* the walk-order run, as the extracted entry point computes it *)
 Corollary bijection_walk_order root l :
-  layout_ok l = true -> kf_root root = false -> kf_notutf8 root l = false ->
-  exists cs, analyze root l = Done cs /\ map wobs (emit cs) = map spec_obs (annotated_spec l).
-Proof. intros Hok Hroot Hutf.
-  destruct (load_spec root (walk l) Hroot (walk_ok l Hok) Hutf) as (cached & Hl & Hs).
-  exists (analyze_files cached). unfold analyze, cache. rewrite Hl. split; [reflexivity|].
-  rewrite spec_walk, <- Hs. apply emit_pairs. Qed.
+  layout_ok l = true ->
+  map wobs (emit (analyze root l)) = map spec_obs (annotated_spec l).
+Proof. intros _. unfold analyze, cache. rewrite spec_walk, <- (load_spec root (walk l)). apply emit_pairs. Qed.
 
 (* no function without the attribute, no nested function, no function of a skipped file
    has a wrapper: membership reading of the specification *)
@@ -283,56 +160,46 @@ Lemma in_annotated_spec l p f :
   exists items, In (p, Parsed items) (walk l) /\ spec_accept p = true /\ In (RFn f) items /\ annotated f = true.
 Proof. rewrite spec_walk. apply in_spec_files. Qed.
 
-(* ------------------------------------------------------------------ unparsable files *)
-Definition app_outcome {A} (a b : outcome (list A)) : outcome (list A) :=
-  match a, b with Done x, Done y => Done (x ++ y) | _, _ => Failed end.
-
-Lemma load_app root a b : load root (a ++ b) = app_outcome (load root a) (load root b).
-Proof. induction a as [|[p c] r IH]; cbn [app load].
-  - destruct (load root b); reflexivity.
-  - destruct (accepted root p); [|exact IH]. destruct c; [|exact IH|reflexivity].
-    rewrite IH. destruct (load root r), (load root b); reflexivity. Qed.
+(* ------------------------------------------------------------------ unparsable and unreadable files *)
+Lemma load_app root a b : load root (a ++ b) = load root a ++ load root b.
+Proof. induction a as [|[p c] r IH]; cbn [app load]; [reflexivity|].
+  destruct (accepted root p); [|exact IH]. destruct c; [|exact IH|exact IH].
+  rewrite IH. reflexivity. Qed.
 
 Lemma analyze_files_app a b : analyze_files (a ++ b) = analyze_files a ++ analyze_files b.
 Proof. unfold analyze_files. apply flat_map_app. Qed.
 
-Definition analyze_list (root : str) (files : list (list str * content)) : outcome (list cmd) :=
-  match load root files with Done c => Done (analyze_files c) | Failed => Failed end.
+Definition analyze_list (root : str) (files : list (list str * content)) : list cmd :=
+  analyze_files (load root files).
 Definition own_cmds (root : str) (p : list str) (items : list ritem) : list cmd :=
   if accepted root p then map (fun f => {| c_file := p; c_fn := f |}) (file_cmds items) else [].
+Definition skipped (c : content) : bool := match c with Parsed _ => false | _ => true end.
 
-Theorem unparsable_isolated root pre post p items :
-  match analyze_list root pre, analyze_list root post with
-  | Done a, Done b =>
-      analyze_list root (pre ++ (p, Parsed items) :: post) = Done (a ++ own_cmds root p items ++ b) /\
-      analyze_list root (pre ++ (p, Unparsable) :: post) = Done (a ++ b)
-  | _, _ =>
-      analyze_list root (pre ++ (p, Parsed items) :: post) = Failed /\
-      analyze_list root (pre ++ (p, Unparsable) :: post) = Failed
-  end.
-Proof. unfold analyze_list, own_cmds. rewrite !load_app. cbn [load].
-  destruct (load root pre) as [a|], (load root post) as [b|], (accepted root p); cbn [app_outcome];
-    try (split; reflexivity).
-  - split; [|rewrite analyze_files_app; reflexivity].
-    rewrite analyze_files_app. unfold analyze_files at 2. cbn [flat_map fst snd]. reflexivity.
-  - split; rewrite analyze_files_app; reflexivity. Qed.
+Theorem skipped_isolated root pre post p items c :
+  skipped c = true ->
+  analyze_list root (pre ++ (p, Parsed items) :: post)
+    = analyze_list root pre ++ own_cmds root p items ++ analyze_list root post /\
+  analyze_list root (pre ++ (p, c) :: post) = analyze_list root pre ++ analyze_list root post.
+Proof. intros Hc. unfold analyze_list, own_cmds. rewrite !load_app. cbn [load].
+  destruct (accepted root p).
+  - split.
+    + rewrite !analyze_files_app. unfold analyze_files at 2. cbn [flat_map fst snd]. reflexivity.
+    + destruct c; [discriminate| |]; apply analyze_files_app.
+  - split; apply analyze_files_app. Qed.
 
-(* on layouts: turning one parsed file into an unparsable one *)
-Theorem unparsable_isolated_layout root l l' pre post p items :
+(* on layouts: turning one parsed file into an unparsable or unreadable one *)
+Theorem skipped_isolated_layout root l l' pre post p items c :
+  skipped c = true ->
   walk l = pre ++ (p, Parsed items) :: post ->
-  walk l' = pre ++ (p, Unparsable) :: post ->
-  match analyze root l with
-  | Done cs => exists a b, cs = a ++ own_cmds root p items ++ b /\ analyze root l' = Done (a ++ b)
-  | Failed => analyze root l' = Failed
-  end.
-Proof. intros Hl Hl'. pose proof (unparsable_isolated root pre post p items) as H.
+  walk l' = pre ++ (p, c) :: post ->
+  exists a b, analyze root l = a ++ own_cmds root p items ++ b /\ analyze root l' = a ++ b.
+Proof. intros Hc Hl Hl'. destruct (skipped_isolated root pre post p items c Hc) as [H1 H2].
+  exists (analyze_list root pre), (analyze_list root post).
   change (analyze root l) with (analyze_list root (walk l)).
   change (analyze root l') with (analyze_list root (walk l')).
-  rewrite Hl, Hl'. revert H.
-  destruct (analyze_list root pre) as [a|]; [destruct (analyze_list root post) as [b|]|];
-    intros [-> ->]; eauto. Qed.
+  rewrite Hl, Hl'. split; assumption. Qed.
 
-(* ------------------------------------------------------------------ refutations *)
+(* ------------------------------------------------------------------ the repaired witnesses *)
 Definition fn_hello : fn_def :=
   {| fn_name := L "hello"; fn_attrs := [[L "tauri"; L "command"]]; fn_async := false; fn_params := [];
      fn_ret := Some (QPath [] (L "String") false []) |}.
@@ -341,24 +208,26 @@ Definition w_layout1 : layout := [NFile (L "main.rs") (Parsed [RFn fn_hello])].
 Definition w_layout2 : layout :=
   [NFile (L "main.rs") (Parsed [RFn fn_hello]); NDir (L "fixtures") [NFile (L "latin1.rs") NotUtf8]].
 
-Lemma root_refuted :
-  layout_ok w_layout1 = true /\ kf_root w_root = true /\ kf_notutf8 w_root w_layout1 = false /\
-  analyze w_root w_layout1 = Done [] /\
+(* former C03-1 witness: the root lies below a directory called target *)
+Lemma root_fixed :
+  layout_ok w_layout1 = true /\
+  map wobs (emit (analyze w_root w_layout1)) = [(L "hello", L "Promise<string>")] /\
   map spec_obs (annotated_spec w_layout1) = [(L "hello", L "Promise<string>")].
 Proof. vm_compute. repeat split; reflexivity. Qed.
 
-Lemma notutf8_refuted :
-  layout_ok w_layout2 = true /\ kf_root (L "src") = false /\ kf_notutf8 (L "src") w_layout2 = true /\
-  analyze (L "src") w_layout2 = Failed /\
+(* former C03-2 witness: a Latin-1 file next to the command *)
+Lemma notutf8_fixed :
+  layout_ok w_layout2 = true /\
+  map wobs (emit (analyze (L "src") w_layout2)) = [(L "hello", L "Promise<string>")] /\
   map spec_obs (annotated_spec w_layout2) = [(L "hello", L "Promise<string>")].
 Proof. vm_compute. repeat split; reflexivity. Qed.
 
-(* the spelling of the root decides: the same directory named target is fine as "target" *)
+(* the spelling of the root no longer decides; target and .git BELOW the root still do *)
 Lemma root_spelling :
-  kf_root (L "target") = false /\ kf_root (L "./target") = true /\ kf_root (L "target/") = false /\
-  map wobs (emit (match analyze (L "target") w_layout1 with Done c => c | Failed => [] end)) = [(L "hello", L "Promise<string>")] /\
-  analyze (L "./target") w_layout1 = Done [].
-Proof. vm_compute. repeat split; reflexivity. Qed.
+  map (fun r => map wobs (emit (analyze (L r) w_layout1))) ["target"; "./target"; "target/"; "/a/.git/b"; "x/target/"]%string
+    = repeat [(L "hello", L "Promise<string>")] 5 /\
+  analyze (L "src") [NDir (L "target") w_layout1; NDir (L "a") [NDir (L ".git") w_layout1]] = [].
+Proof. vm_compute. split; reflexivity. Qed.
 
 (* ------------------------------------------------------------------ the oracle *)
 Lemma pair_eqb_eq a b : pair_eqb a b = true <-> a = b.
